@@ -207,8 +207,16 @@ func runC18(c *engine.Ctx) {
 	if revF == nil {
 		c.AnchorMissing(r4, "notifications.subscriberRegistry.revTopics")
 	} else {
+		asLookup := func(v ssa.Value) *ssa.Lookup { // reg.F[key], also when bound to a local (plain or comma-ok form)
+			v = engine.LocalValue(v)
+			if ex, ok := v.(*ssa.Extract); ok && ex.Index == 0 {
+				v = ex.Tuple
+			}
+			lk, _ := v.(*ssa.Lookup)
+			return lk
+		}
 		innerOf := func(m ssa.Value) *types.Var { // m is reg.F[key]: returns F
-			if lk, ok := engine.Strip(m).(*ssa.Lookup); ok {
+			if lk := asLookup(m); lk != nil {
 				if fl, _ := engine.LoadedField(lk.X); fl == topicsF || fl == revF {
 					return fl
 				}
@@ -255,7 +263,7 @@ func runC18(c *engine.Ctx) {
 						if !((bo.Op == token.EQL && cd.Pol && k == 0) || (bo.Op == token.LEQ && cd.Pol && k == 0) || (bo.Op == token.GTR && !cd.Pol && k == 0) || (bo.Op == token.NEQ && !cd.Pol && k == 0)) {
 							continue
 						}
-						if lk, ok := engine.Strip(lc.Call.Args[0]).(*ssa.Lookup); ok {
+						if lk := asLookup(lc.Call.Args[0]); lk != nil {
 							if lf, _ := engine.LoadedField(lk.X); lf == fl && engine.SameValue(lk.Index, x.Call.Args[1]) {
 								okEmpty = true
 							}
@@ -307,9 +315,13 @@ func runC18(c *engine.Ctx) {
 			ifi, isIf := b.Instrs[len(b.Instrs)-1].(*ssa.If)
 			good := false
 			if isIf {
-				if bo, isB := ifi.Cond.(*ssa.BinOp); isB && bo.Op == token.EQL {
-					if k, isK := engine.ConstInt(bo.Y); isK && k == shutdownOp && b.Succs[0] == s {
-						good = true
+				// the edge's own condition (looked through flags and helpers) must imply op == shutdown
+				edge := []engine.Cond{{V: ifi.Cond, Pol: b.Succs[0] == s, If: ifi}}
+				for _, cd := range engine.ExpandConds(engine.FlattenCond(edge[0]), 0) {
+					if bo, isB := cd.V.(*ssa.BinOp); isB && bo.Op == token.EQL && cd.Pol {
+						if k, isK := engine.ConstInt(bo.Y); isK && k == shutdownOp {
+							good = true
+						}
 					}
 				}
 			}
